@@ -59,6 +59,34 @@ def run(pid, tier, seed, replay):
     alines = ctx.go_driver("server", ["server/srv_test.go", "server/partdrv_test.go", "server/c16_test.go"], "^TestVerifC16Api$",
                            env={"VERIF_N": 5 if tier == "quick" else 60}, timeout=3000)
     api_cases = [l for l in alines if l.get("k") == "occ"]
+    # ... and the same histories against the model: every API call is a step LApi of Repl.Acks on a single-replica
+    # partition with concurrency control; log end, HW and every answer received so far are compared after each call
+    if api_cases:
+        def a_case(c):
+            st = []
+            for s in c["steps"]:
+                ms = "; ".join("mkMsgE %d%%N %s %s (%d) false" % (m["corr"], c04mod.POL[m["policy"]], "true" if m.get("large") else "false", m["expected"]) for m in s["msgs"])
+                ans = "; ".join("(%d%%N, (%d), %d%%nat)" % (a["corr"], a["off"] if a["kind"] == 0 else 0, a["kind"]) for a in sorted(s["answers"], key=lambda a: a["corr"]))
+                st.append("(LApi [%s], mkLObs (%d) (%d) [(0%%N, (%d))] [%s])" % (ms, s["newest"], s["hw"], s["newest"], ans))
+            return "mkLCase [0%%N] 1%%nat true [\n   %s]" % ";\n   ".join(st)
+        txt = "From LB Require Import Base.Prelude Repl.Acks.\nOpen Scope Z_scope.\n"
+        sentinel = "mkLCase [0%N] 1%nat true [(LApi [mkMsgE 1%N PNone false (-1) false], mkLObs 0 0 [(0%N, 0)] [(1%N, 0, 0%nat)])]"
+        txt += "Definition CS : list lcase := [\n %s].\n" % ";\n ".join([a_case(c) for c in api_cases] + [sentinel])
+        txt += "Definition M := Eval vm_compute in lcases_mismatches CS 0.\nPrint M.\n"
+        out = ctx.coq_eval("cases_c16_api", txt)
+        if out is not None:
+            import re
+            m = re.search(r"M\s*=\s*(.*?)\n\s*:", out, re.S)
+            pairs = [(int(a), int(b)) for a, b in re.findall(r"\(\s*(\d+)(?:%nat)?\s*,\s*(\d+)(?:%nat)?\s*\)", m.group(1))] if m else None
+            if pairs is None or (len(api_cases), 0) not in pairs:
+                ctx.tie_problems.append({"what": "the API-level model evaluation could not be parsed or misses the sentinel (a NONE publish acknowledged on a stream with concurrency control)", "detail": out[-300:]})
+            else:
+                for a, b in pairs:
+                    if a < len(api_cases):
+                        c = api_cases[a]
+                        ctx.tie_problems.append({"what": "correspondence Repl.Acks.lcases_mismatches (API calls, LApi): history %d differs from the model after call %d" % (c["id"], b),
+                                                 "first": [{"step": c["steps"][b], "case": {"id": c["id"], "batch": c["batch"], "steps": c["steps"][:b + 1]}}]})
+                        break
     for l in alines:
         if l.get("k") == "stat":
             dist.update({"api/" + k: v for k, v in l["dist"].items()})
